@@ -7,6 +7,8 @@ R02.3 the K-shift phase is applied according to the CURRENT transform mode: ever
       re-assigned by every configuration path of set_fft_R_to_k.
 R02.4 derivative factors: i·(R + τj − τi), applied `der` times before the transform; HH_K / corner Hamiltonians are Hermitised.
 R02.5 q→R library wrappers agree in direction; forward transform is divided by the number of mesh points.
+R02.6 no array is shared between the FFTW plan and a caller (may-alias analysis over the methods of FFT_R_to_k).
+R02.7 every Data_K object configures (set_fft_R_to_k) a private copy of the system's R-vectors.
 """
 from __future__ import annotations
 
@@ -25,7 +27,9 @@ EXPLANATION = (
     "AST and compared; the Hermitisation must post-dominate every branch; placement of R-blocks on the FFT box must be an "
     "accumulation because R is wrapped modulo the box. A small typestate rule decides that apply_expdK only branches on "
     "state that every configuration path of set_fft_R_to_k re-assigns (so a re-configured Rvectors object cannot use stale "
-    "grid-shift phases). Not decided: numerical agreement to rounding. Trusted: numpy/pyFFTW inverse transforms carry 1/N.")
+    "grid-shift phases). An interprocedural may-alias analysis over FFT_R_to_k (objects: allocation sites, parameters, the pyfftw plan's "
+    "buffers) decides that no array handed to the plan as input is returned to a caller and that the plan's output buffer is copied "
+    "before it is returned; Data_K_R must configure a private copy of the R-vectors. Not decided: numerical agreement to rounding. Trusted: numpy/pyFFTW inverse transforms carry 1/N.")
 
 FF = "wannierberri/fourier/fft.py"
 RV = "wannierberri/fourier/rvectors.py"
